@@ -181,7 +181,8 @@ fn frame_exhaustive(t: &mut Tape, obs: &mut Obs) -> R {
         b[4] = l as u8;
         let total = b.len();
         let mut cuts = vec![0usize, 1, 2, 3, 4, 5];
-        for c in [(5 + l).saturating_sub(1), 5 + l, 5 + l + 1, 5 + l + 17] {
+        for c in [(5 + l).saturating_sub(1), 5 + l, 5 + l + 1, 5 + l + 17, total] {
+            // `total`: the record at the front of a buffer holding more than 64 KiB (65572 bytes)
             if c <= total && !cuts.contains(&c) {
                 cuts.push(c);
             }
@@ -262,13 +263,18 @@ fn frame_generated(t: &mut Tape, obs: &mut Obs) -> R {
         }
     }
     let rec_len = e.buf.len();
-    match t.weighted(&[3, 3, 2]) {
+    match t.weighted(&[6, 6, 4, 1]) {
         0 => {}
         1 => {
             let x = t.small_blob(40);
             e.bytes(&x);
         }
-        _ => gen_record(t).encode(&mut e),
+        2 => gen_record(t).encode(&mut e),
+        _ => {
+            // more than 64 KiB after the record (sizes around multiples of 2^16)
+            let n = t.pick(&[65531usize, 65535, 65536, 65537, 70000, 131072, 131100]);
+            e.bytes(&vec![0x33u8; n]);
+        }
     }
     let buf = e.buf;
     obs.sample_class(&label, || json!({"case": label, "record_bytes": rec_len, "total_bytes": buf.len(), "hex": hex_short(&buf)}));
